@@ -1,2 +1,216 @@
+"""Emit lean/SkopsModel/Generated/Specs.lean (+ generated/facts.json) from the live node classes."""
+from __future__ import annotations
+
+import json
+import subprocess
+import sys
+
+from ..common import LEAN, REPO, VERIF, write_if_changed
+
+FACTS = VERIF / "generated" / "facts.json"
+
+
+def lstr(s):
+    if s is None:
+        return '""'
+    out = ['"']
+    for ch in str(s):
+        o = ord(ch)
+        if ch == '"':
+            out.append('\\"')
+        elif ch == "\\":
+            out.append("\\\\")
+        elif ch == "\n":
+            out.append("\\n")
+        elif ch == "\t":
+            out.append("\\t")
+        elif o < 32 or o > 126:
+            out.append("\\u{%x}" % o)
+        else:
+            out.append(ch)
+    out.append('"')
+    return "".join(out)
+
+
+def llist(items):
+    return "[" + ", ".join(items) + "]"
+
+
+def lname_expr(e):
+    src = e.get("src")
+    if src == "state":
+        return f".state {llist(map(lstr, e['path']))}"
+    if src == "child":
+        ctor = ".childMod" if e["which"] == "module_name" else ".childCls"
+        return f"{ctor} {llist(map(lstr, e['path']))}"
+    if src == "concat":
+        parts = []
+        for p in e["parts"]:
+            parts.append(f".lit {lstr(p['lit'])}" if "lit" in p else lname_expr(p))
+        return f".concat {llist(parts)}"
+    return ".unknown"
+
+
+def luse(u):
+    t = u["u"]
+    if t == "resolve":
+        s = u["src"]
+        if s == "self":
+            return ".resolve .self"
+        if s == "const":
+            return f".resolve (.const {lstr(u['m'])} {lstr(u['c'])})"
+        if s == "child":
+            return f".resolve (.child {lstr(u['key'])})"
+        if s == "rawpaths":
+            return f".resolve (.rawPaths {lstr(u['key'])} {lstr(u['m'])} {lstr(u['c'])})"
+        if s == "raw" and u.get("m"):
+            return f".resolve (.rawIn {lstr(u['m'])})"
+        return f".resolve (.unknown {lstr(u.get('desc', '?'))})"
+    if t == "kid":
+        return f".kid {lstr(u['key'])}"
+    if t == "call":
+        if u["target"] == "resolved":
+            return f".callResolved {u['of']}"
+        if u["target"] == "instance":
+            return f".callInstance {u['of'] if u['of'] >= 0 else 0}"
+        if u["target"] == "childvalue":
+            return f".callChildValue {lstr(u['key'])}"
+    if t == "getattr":
+        attr = u["attr"]
+        slot = attr.split("'")[3] if attr.startswith("('childnode'") else "?"
+        return f".getattrChild {lstr(u['on'])} {lstr(slot)}"
+    if t == "guard":
+        return f".guardSubclass {u['of']} {lstr(u['kind'])}"
+    if t == "lib":
+        return None
+    return f".unknown {lstr(u.get('src', json.dumps(u)))}"
+
+
+def renumber_uses(uses):
+    """drop `lib` entries, remap indices that refer to resolve uses"""
+    keep, remap = [], {}
+    for i, u in enumerate(uses):
+        if u["u"] == "lib":
+            continue
+        remap[i] = len(keep)
+        keep.append(dict(u))
+    for u in keep:
+        if "of" in u and isinstance(u["of"], int) and u["of"] >= 0:
+            u["of"] = remap.get(u["of"], 9999)
+    return keep
+
+
+def lkind(k):
+    sc = k["self_check"]
+    mode = sc["mode"]
+    if mode == "fnContent":
+        lsc = f".fnContent {llist(map(lstr, sc['m']))} {llist(map(lstr, sc['c']))}"
+    elif mode in ("standard", "always", "fnSelf"):
+        lsc = "." + mode
+    else:
+        lsc = ".unknown"
+    variants = []
+    for v in k["variants"]:
+        slots = []
+        for s in v["slots"] or []:
+            shape = s["shape"]
+            if shape == "unknown":
+                slots.append(f'{{ key := {lstr(s["key"])}, path := [], shape := .raw, childExtra := ["<unknown slot>"] }}')
+                continue
+            extra = s.get("child_trust")
+            if extra == "unknown":
+                extra = ["<unknown child trust>"]
+            extra = extra or []
+            synth = ""
+            if shape == "synth":
+                synth = ", synth := .fromState" if k["loader"] == "LossNode" or True else ""
+            slots.append(
+                f'{{ key := {lstr(s["key"])}, path := {llist(map(lstr, s.get("path", [])))}, optional := {str(bool(s.get("optional"))).lower()}, '
+                f'shape := .{shape}, childExtra := {llist(map(lstr, sorted(extra)))}{s.get("_synth_lean", synth)} }}')
+        when = v.get("when")
+        if when:
+            variants.append(f'{{ whenPath := {llist(map(lstr, when["path"]))}, whenEq := {lstr(when["equals"])}, slots := {llist(slots)} }}')
+        else:
+            variants.append(f"{{ slots := {llist(slots)} }}")
+    uses = [x for x in (luse(u) for u in renumber_uses(k["uses"])) if x]
+    trust = k["trust"]
+    fields = [
+        f"loader := {lstr(k['loader'])}", f"protocol := {k['protocol']}", f"cls := {lstr(k['cls'])}",
+        f"memoize := {str(bool(k['memoize'])).lower()}", f"alwaysRaises := {str(bool(k.get('always_raises'))).lower()}",
+        f"callerPlus := {str(trust['mode'] == 'callerPlus').lower()}",
+        f"defaults := {llist(map(lstr, sorted(set(trust.get('defaults', [])))))}",
+        f"selfCheck := {lsc}", f"walksKids := {str(bool(sc.get('walks'))).lower()}",
+        f"moduleName := {lname_expr(k['names'].get('module_name', {}))}",
+        f"className := {lname_expr(k['names'].get('class_name', {}))}",
+        f"variants := {llist(variants)}", f"elseRaises := {str(bool(k['else_raises'])).lower()}",
+        f"memoRef := {str('memo_ref' in k).lower()}",
+        f"initEffects := {llist(map(lstr, k['init_effects']))}",
+        f"reads := {llist(llist(map(lstr, p)) for p in k.get('reads', []))}",
+        f"uses := {llist(uses)}",
+    ]
+    return "{ " + ",\n    ".join(fields) + " }"
+
+
+def synth_fixup(facts):
+    """names of ReduceNode's synthetic constructor node: evaluate which class each ReduceNode subclass passes"""
+    import skops.io  # noqa
+    from skops.io._audit import NODE_TYPE_MAPPING
+    from skops.io._utils import get_module
+    import ast, inspect, textwrap
+
+    for k in facts["kinds"]:
+        cls = NODE_TYPE_MAPPING[(k["loader"], k["protocol"])]
+        for v in k["variants"]:
+            for s in v["slots"] or []:
+                if s["shape"] != "synth":
+                    continue
+                # find `constructor=<expr>` in the class' own __init__
+                src = textwrap.dedent(inspect.getsource(cls.__init__))
+                tree = ast.parse(src)
+                expr = None
+                for n in ast.walk(tree):
+                    if isinstance(n, ast.keyword) and n.arg == "constructor":
+                        expr = n.value
+                if expr is None:
+                    s["_synth_lean"] = ', synth := .const "<unknown>" "<unknown>"'
+                elif isinstance(expr, ast.Constant) and expr.value is None:
+                    s["_synth_lean"] = ", synth := .fromState"
+                elif isinstance(expr, ast.Name):
+                    obj = sys.modules[cls.__module__].__dict__.get(expr.id)
+                    if obj is None:
+                        s["_synth_lean"] = ', synth := .const "<unknown>" "<unknown>"'
+                    else:
+                        s["_synth_lean"] = f", synth := .const {lstr(get_module(obj))} {lstr(obj.__name__)}"
+                else:
+                    s["_synth_lean"] = ', synth := .const "<unknown>" "<unknown>"'
+
+
+def collect_in_subprocess():
+    """run the collector in a fresh interpreter importing the working tree"""
+    code = (
+        "import sys, json; sys.path.insert(0, %r); sys.path.insert(0, %r);"
+        "from harness.translate import nodes, registry;"
+        "f = nodes.collect(); registry.synth_fixup(f); print(json.dumps(f, default=str))" % (str(REPO), str(VERIF))
+    )
+    p = subprocess.run([sys.executable, "-W", "ignore", "-c", code], capture_output=True, text=True, cwd=str(VERIF))
+    if p.returncode != 0:
+        raise RuntimeError("translator failed: " + p.stderr[-2000:])
+    return json.loads(p.stdout)
+
+
 def generate():
-    pass
+    facts = collect_in_subprocess()
+    FACTS.parent.mkdir(exist_ok=True)
+    write_if_changed(FACTS, json.dumps(facts, indent=1, sort_keys=True))
+    lines = ["import SkopsModel.Io.Spec",
+             "/-! GENERATED by harness/translate/registry.py from the working tree of /repo — do not edit. -/",
+             "namespace Skops.Generated", "open Skops.Io", ""]
+    names = []
+    for k in facts["kinds"]:
+        nm = f"kind_{k['loader'].strip('_')}_{k['protocol']}"
+        names.append(nm)
+        lines.append(f"def {nm} : KindSpec :=\n  {lkind(k)}\n")
+    lines.append(f"def table : Table :=\n  {{ protocol := {facts['protocol']}, kinds := {llist(names)} }}\n")
+    lines.append("end Skops.Generated\n")
+    write_if_changed(LEAN / "SkopsModel" / "Generated" / "Specs.lean", "\n".join(lines))
+    return facts
